@@ -162,6 +162,14 @@ def check(case, ctx):
             for d_, nm in enumerate(('knotvector_u', 'knotvector_v', 'knotvector_w')[:pdim]):
                 if bsd['kvs'][d_] != sd['kvs'][d_]:
                     setattr(c, 'knotvector' if pdim == 1 else nm, list(bsd['kvs'][d_]))
+        elif sd['rational'] and mut == 'weight' and rng.random() < 0.5:
+            # the read-modify-write idiom on the list handed out by the getter
+            w_ = c.weights
+            for i_, (x_, y_) in enumerate(zip(bsd['weights'], sd['weights'])):
+                if x_ != y_:
+                    w_[i_] = x_
+            c.weights = w_
+            ctx.tag('via-copy:read-modify-write')
         elif sd['rational']:
             # populated rational shape: unweighted points first, then the weights (two public setters in a row)
             c.ctrlpts
@@ -178,6 +186,28 @@ def check(case, ctx):
                       'independently built partner', what='rebuilt-equal')
         ctx.check((a == G.build(sd)) is True, 'source-changed-by-editing-copy', 'editing a deep copy changed what its source compares equal to',
                   what='rebuilt-equal')
+    # ---- volumes defined through the list-form setters: same data => equal, one w-knot different => unequal ---------------------------
+    if sd['pdim'] == 3 and mut in ('knot', 'none', 'coord'):
+        ctx.tag('list-form-volume')
+        p_, n_ = sd['degrees'][1], sd['sizes'][1]
+        vsd = dict(sd, degrees=[sd['degrees'][0], p_, p_], sizes=[sd['sizes'][0], n_, n_])
+        ntot = vsd['sizes'][0] * n_ * n_
+        vsd['ctrlpts'] = [G.rand_point(rng, 3, 'uniform') for _ in range(ntot)]
+        if vsd['rational']:
+            vsd['weights'] = G.rand_weights(rng, ntot, 'uniform')
+        kvv = G.knot_vector(rng, p_, n_ + 0, 'bezier' if n_ == p_ + 1 else 'uniform')
+        kvw = list(kvv)
+        if n_ > p_ + 1:
+            kvw[p_ + 1] = 0.5 * (kvv[p_] + kvv[p_ + 1])          # w differs from v in one interior knot
+        vsd['kvs'] = [sd['kvs'][0], kvv, kvw]
+        v_dir = G.build(vsd)
+        v_list = G.build(dict(vsd, route='list'))
+        ctx.check((v_dir == v_list) is True and (v_list == v_dir) is True, 'list-form/not-equal-to-per-direction',
+                  'a volume defined with degree = [...], knotvector = [...] does not equal the same volume defined per direction', what='rebuilt-equal')
+        if n_ > p_ + 1:
+            v_other = G.build(dict(vsd, route='list', kvs=[sd['kvs'][0], kvv, kvv]))
+            ctx.check((v_other == v_list) is False, 'differs/knot', 'volumes defined through knotvector = [u, v, w] that differ in one w knot '
+                      'compare equal', what='differs')
     # evaluation state must not influence equality
     a3 = G.build(sd)
     a3.sample_size = 3
